@@ -98,13 +98,22 @@ def _case(draw, ctx):
     if draw(st.integers(0, 5)) == 0:
         pools = (VNAMES[:20], LONG)
     dense = False
-    if draw(st.integers(0, 3)) == 0:
+    prior = None
+    k_ = draw(st.integers(0, 7))
+    if k_ in (0, 1):
         # nets named like the gates the reader synthesises for assign expressions
         pools = (["a", "b", "c"], HELPERLIKE)
         dense = True
+    elif k_ == 2:
+        # the same names in ordinary circuits (all gate types, constants), read after another circuit over
+        # a, b, c has been written in assign style and read back in the same process
+        pools = (["a", "b", "c", "d"], ["not_a", "not_b", "and_a_b", "and_b_a", "or_a_b", "or_b_c", "xor_a_b", "xor_b_a", "and_a_c", "not_c",
+                                        "and_a_b_0", "not_a_0", "or_a_c", "xor_a_c", "and_b_c"])
+        prior = draw(S.circuit_spec(min_inputs=3, max_inputs=3, min_gates=3, max_gates=8, max_fanin=3, pools=(["a", "b", "c"], [f"w{i}" for i in range(12)]),
+                                    types=["and", "nand", "or", "nor", "xor", "xnor", "not"], min_fanin_nary=2, consts=False, name="earlier"))
     spec = draw(S.circuit_spec(min_inputs=3 if dense else 0, max_inputs=3 if dense else 4, min_gates=4 if dense else 1,
                                max_gates=12 if dense else 9, max_fanin=5, pools=pools,
-                               types=(["and", "nand", "or", "nor", "xor", "xnor"] if dense else S.ALL_GATES),
+                               types=(["and", "nand", "or", "nor", "xor", "xnor"] if dense else (list(S.ALL_GATES) + ["buf", "buf", "buf"] if prior else S.ALL_GATES)),
                                min_fanin_nary=2 if dense else 1, consts=not dense, shuffle=not dense,
                                const_types=("0", "1", "0", "1", "x") if draw(st.integers(0, 5)) == 0 else ("0", "1"),
                                max_insts=draw(st.sampled_from([0, 0, 1, 2])), unconnected_pins=draw(st.booleans()),
@@ -134,8 +143,11 @@ def _case(draw, ctx):
                 inst[2] = {k: ren.get(v, v) for k, v in inst[2].items()}
     route = draw(st.sampled_from(["string", "string", "string", "file_suffix", "file_fmt", "file_infer", "bad_suffix", "bad_fmt"]))
     tables = draw(st.lists(st.integers(0, (1 << 64) - 1), min_size=16, max_size=16))
-    return {"spec": spec, "beh": draw(st.booleans()), "route": route, "tables": tables,
+    case = {"spec": spec, "beh": draw(st.booleans()), "route": route, "tables": tables,
             "suffix": draw(st.sampled_from([".txt", ".bench", ".sv", "", ".vh", ".BENCH"]))}
+    if prior is not None:
+        case["prior"] = prior
+    return case
 
 
 def strategy(ctx):
@@ -164,6 +176,12 @@ def check(case, ctx):
         return {"nontrivial": False, "labels": ["skipped_no_port"]}
     beh = case["beh"]
     route = case["route"]
+    if case.get("prior"):
+        # another circuit written in assign style and read back earlier in the same process
+        pc_ = specs.build(case["prior"])
+        pt_ = lib(cg.io.circuit_to_verilog, pc_, behavioral=True)
+        if pt_.ok:
+            lib(cg.io.verilog_to_circuit, pt_.value, pc_.name)
     snap = refsim.snapshot(c)
     tdir = os.path.join(ctx.tmp if ctx is not None else "/tmp", "c03")
     shutil.rmtree(tdir, ignore_errors=True)
